@@ -109,11 +109,8 @@ def answer (line : String) : String :=
           (match s with
            | some t =>
              (if v == 10 && trigF04a V.rows t then ["F04a"] else []) ++
-             (if trigF04d (v % 100) V.rows t then ["F04d"] else []) ++
-             (if trigF04o t then ["F04o"] else [])
-           | none =>
-             -- no derivation (e.g. a second argument list, F04b): judged on the model's tree
-             (match m with | .ok t => if trigF04o t then ["F04o"] else [] | .error _ => []))
+             (if trigF04d (v % 100) V.rows t then ["F04d"] else [])
+           | none => [])
         let rel := match m with
           | .ok t => decide (t.yield = toks) && derivableR (gramOf V.impl V.ep (syms V.rows)) 0 t
           | .error _ => true
